@@ -740,6 +740,10 @@ def pickle_check(case: Case, root: Any = None) -> tuple[str, str, str]:
             return "invalid", "", ""
     base = _render_all(root, case.datas)
     try:
+        base_str = str(root)
+    except Exception:  # noqa: BLE001
+        base_str = None  # str() failures are the round-trip check's business
+    try:
         blob = pickle.dumps(root)
     except Exception as e:  # noqa: BLE001
         return ("fail", f"pickle-dumps:{type(e).__name__}({_msg_class(e)})",
@@ -754,6 +758,31 @@ def pickle_check(case: Case, root: Any = None) -> tuple[str, str, str]:
         j = next((i for i, (a, b) in enumerate(zip(base, got)) if a != b), 0)
         return ("fail", "pickle-behaviour",
                 f"unpickled template renders differently on data set {j}: {base[j]!r} vs {got[j]!r}")
+    if base_str is not None:
+        try:
+            s2 = str(t2)
+        except Exception as e:  # noqa: BLE001
+            return ("fail", "pickle-str", f"str(unpickled template) raised {type(e).__name__}: {e}")
+        if s2 != base_str:
+            return ("fail", "pickle-str", f"str() differs after pickling: {base_str!r} vs {s2!r}")
+    # copy.deepcopy goes through the same __reduce_ex__ protocol
+    try:
+        t3 = copy.deepcopy(root)
+    except Exception as e:  # noqa: BLE001
+        return ("fail", f"deepcopy:{type(e).__name__}({_msg_class(e)})",
+                f"copy.deepcopy(template) raised {type(e).__name__}: {e}")
+    got3 = _render_all(t3, case.datas)
+    if got3 != base:
+        j = next((i for i, (a, b) in enumerate(zip(base, got3)) if a != b), 0)
+        return ("fail", "deepcopy-behaviour",
+                f"deep-copied template renders differently on data set {j}: {base[j]!r} vs {got3[j]!r}")
+    if base_str is not None:
+        try:
+            s3 = str(t3)
+        except Exception as e:  # noqa: BLE001
+            return ("fail", "deepcopy-str", f"str(deep-copied template) raised {type(e).__name__}: {e}")
+        if s3 != base_str:
+            return ("fail", "deepcopy-str", f"str() differs after deepcopy: {base_str!r} vs {s3!r}")
     return "ok", "", ""
 
 
@@ -927,11 +956,11 @@ class Monitor:
                     self.minimised += 1
                     small = self._min_pickle(case, pkey)
                     final = pkey
-                    if pkey == "pickle-behaviour":
+                    if pkey in ("pickle-behaviour", "pickle-str", "deepcopy-behaviour", "deepcopy-str"):
                         # name the construct: the classes left in the minimised witness
                         try:
                             n, e, _ = walk(_env(small.kind, small.templates).from_string(small.source))
-                            final = "pickle-behaviour@" + "+".join(sorted(
+                            final = pkey + "@" + "+".join(sorted(
                                 (n | e) - {"OutputNode", "ContentNode", "FilteredExpression", "BooleanExpression"}))[:90]
                         except Exception:  # noqa: BLE001
                             pass
@@ -1079,7 +1108,7 @@ def _units(spec: dict[str, Any], ctx: Ctx) -> None:
             # explicit `+` is not the same as no marker
             kinds = ["shopify", "shopify-minus", "shopify-tilde"]
         for kind in kinds:
-            r = mon.check(Case(kind, src, G.PARTIALS, "", datas), do_pickle=(ui % 3 == 0 and kind == kinds[0]),
+            r = mon.check(Case(kind, src, G.PARTIALS, "", datas), do_pickle=(kind == kinds[0]),
                           feats=(f"{lab}:{feat}",), label="unit-" + lab)
             if r != "invalid":
                 last = (lab, feat, src)
@@ -1110,7 +1139,7 @@ def _compose(spec: dict[str, Any], ctx: Ctx) -> None:
         datas = G.datasets(rng)
         kind = ("shopify" if shopify else "std") + rng.choice(["", "", "", "", "", "-minus", "-tilde"])
         ctx.seen("environments", kind)
-        r = mon.check(Case(kind, src, tpls, "", datas), do_pickle=(j % 2 == 0), feats=feats, label="compose")
+        r = mon.check(Case(kind, src, tpls, "", datas), do_pickle=True, feats=feats, label="compose")
         if r == "invalid":
             ctx.note(f"generator produced a source the parser rejects (seed {spec['seed']}:compose:{spec['i']}:{j})")
             continue
@@ -1150,8 +1179,8 @@ def floors(tier: str) -> dict[str, int]:
     return {
         "roundtrips": 3000 * k,
         "set:classes": 40,
-        "pickles": 500 * k,
-        "pickle_renders_compared": 300 * k,
+        "pickles": 5000 if tier == "quick" else 60000,
+        "pickle_renders_compared": 3000 if tier == "quick" else 40000,
         "distinct_nontrivial": 800 * k,
         "roundtrips:corpus": 800,
         "set:features": 400,
